@@ -48,7 +48,7 @@ def extra_items():
     # under all quick checks): slices of every element type, zero-sized structs on both Result arms, callbacks on methods of
     # STRUCTS (kotlin derives the wrapper name from the struct), 'static borrows in struct fields, several special methods
     # on one type (getter/setter pairs become one property in nanobind, iterator/iterable pairs)
-    for e in ["i8", "u16", "i16", "u32", "i32", "u64", "isize", "usize", "f32", "f64"]:
+    for e in ["i8", "u16", "i16", "u32", "i32", "u64", "isize", "usize", "f32", "f64", "DiplomatByte"]:
         add("(&self, x: &[%s])" % e, "")
         add("<'a>(&'a self) -> &'a [%s]" % e)
         add("(&self, x: &mut [%s])" % e, "")
@@ -165,7 +165,7 @@ def special_items(prof):
 
 def module_of(items):
     return ("#[diplomat::bridge]\nmod ffi {\n    use diplomat_runtime::{DiplomatOption, DiplomatSlice, DiplomatStrSlice, DiplomatStr16Slice, "
-            "DiplomatUtf8StrSlice, DiplomatWrite, DiplomatStr, DiplomatStr16};\n" + render.PRELUDE + EXTRA_PRELUDE + "\n".join(items) + "}\n")
+            "DiplomatUtf8StrSlice, DiplomatWrite, DiplomatStr, DiplomatStr16, DiplomatByte};\n" + render.PRELUDE + EXTRA_PRELUDE + "\n".join(items) + "}\n")
 
 
 def lower_ok_subset(cases, prof, wd):
@@ -287,6 +287,7 @@ def run(rep, tier):
         live = lower_ok_subset(cand, prof, wd)
         if not live:
             raise lib.ToolError("no program lowers for backend %s" % b)
+        live_all = list(live)
         for cfgv in CONFIGS[b]:
             run_id = "%s|%s" % (b, ",".join(cfgv))
             src = os.path.join(wd, "prog_%s.rs" % b)
@@ -345,6 +346,25 @@ def run(rep, tier):
                 nexec += len(rest)
                 for c in rest:
                     rep.nontriv("%s|%s" % (run_id, c[3]))
+        # ---- solo runs: a shape must not need OTHER items to be generated (helper classes are created on first use and cached:
+        # the first user decides what gets created).  Every slice / string shape of the hand-listed families alone in a module
+        # (thorough: every hand-listed item)
+        solo = [c for c in live_all if c[0] >= 100000 and not known_shape(b, c[3]) and (tier == "thorough" or re.search(r'\[|Str|str', c[3]))]
+        src = os.path.join(wd, "solo_%s.rs" % b)
+        for c in solo:
+            open(src, "w").write(module_of([c[1]]))
+            r_ = lib.run_tool(b, src, os.path.join(wd, "out_solo_" + b), config=CONFIGS[b][0])
+            rid = "%s|solo|%s" % (b, c[3])
+            events.append({"ev": "Lower", "run": rid, "ok": True, "panic": False})
+            if r_["panicked"]:
+                site, msg = panic_msg(r_["stderr"])
+                events.append({"ev": "Generate", "run": rid, "outcome": "panic"})
+                rep.violation({"backend": b, "panic_site": site, "panic": msg, "shape": c[3], "alone": True},
+                              {"config": CONFIGS[b][0], "source": module_of([c[1]]), "stderr": r_["stderr"][-1200:]})
+            else:
+                events.append({"ev": "Generate", "run": rid, "outcome": "files" if r_["rc"] == 0 else "errors"})
+                nexec += 1
+                rep.nontriv("%s|solo|%s" % (b, c[3]))
     nexec += disabled_usage_leg(rep, wd, events)
     tr = os.path.join(wd, "trace.ndjson")
     good = [e for e in events]
